@@ -619,6 +619,155 @@ def gen_recontainer(quick):
                 for f in ("F", "I"):
                     yield case("ListBase", [["cfg", "E", {"list": first}], ["dot", f, {"last": rc_second(classes[-1], kind)}]])
 
+# -------------------------------------------------------------------------------------------------
+# J: operation history - the parse under test is NOT the first use of the parser.  An earlier call (whose result is
+#    ignored) gives the argument another class / the same class / init args only / something invalid, through the
+#    ordinary channels and through those in which the value is judged before the configuration has an entry for the
+#    argument (parse_env, defaults=False, parse_string); then the ordinary history runs on the same parser object and
+#    is judged by the model as on an unused parser (the earlier call is not part of the model's input).
+
+REUSE_HOW = ["env", "obj0", "args0", "str", "obj", "json", "dot"]
+REUSE = {
+    # declared type: (defaults [spec | None], earlier values, later sources)
+    "Base": (
+        [spec_of("SubAdd", "path", {"a": 3, "b": True}), spec_of("SubReq", "path", {"r": 3, "a": 4}), spec_of("Base", "path", {"a": 2, "s": "w"}), None],
+        [spec_of("SubAdd", "path", {"b": True}), spec_of("SubReq", "path", {"r": 2}), spec_of("SubOver", "path", {"c": 5}), spec_of("Base"),
+         spec_of("SubSub", "name"), spec_of(None, "path", {"a": 2}), spec_of("Unrelated")],
+        [[], [["dot", "F", spec_of(None, "path", {"a": 2})]], [["json", "I", spec_of(None, "path", {"a": 2})]], [["dot", "S", spec_of("SubAdd", "name", {"b": True})]]],
+    ),
+    "OptBase": (
+        [spec_of("SubOver", "path", {"a": "w", "c": 3}), None],
+        [spec_of("SubAdd", "path", {"b": True}), spec_of("SubReq", "path", {"r": 2}), None],
+        [[], [["dot", "F", spec_of(None, "path", {"a": "v"})]], [["cfg", "E", spec_of("SubOver", "path", {"c": 5})]]],
+    ),
+    "UnionBO": (
+        [spec_of("OtherSub", "path", {"o": 2, "p": "w"})],
+        [spec_of("Other", "path", {"o": 3}), spec_of("SubAdd", "path", {"b": True}), spec_of(None, "path", {"o": 3})],
+        [[], [["dot", "F", spec_of(None, "path", {"o": 3})]], [["json", "I", spec_of(None, "path", {"p": "v"})]]],
+    ),
+    "Abs": (
+        [spec_of("AbsImpl", "path", {"a": 2, "z": 3})],
+        [spec_of("AbsStillImpl", "path", {"w": 2}), spec_of("AbsImpl"), spec_of("AbsStill", "path", {"y": 2})],
+        [[], [["dot", "F", spec_of(None, "path", {"z": 2})]], [["dot", "S", spec_of("AbsStillImpl", "name")]]],
+    ),
+}
+
+
+def pre_of(how, spec, on="same"):
+    named = spec is not None and spec.get("c")
+    if how == "dot":
+        form = "S" if named else "F"
+    else:
+        form = "E" if named or spec is None else "I"
+    return {"on": on, "how": how, "form": form, "spec": spec}
+
+
+def gen_reuse(quick):
+    for t, (defaults, earlier, later) in REUSE.items():
+        for d in defaults:
+            for e in earlier:
+                for how in REUSE_HOW:
+                    if e is None and how == "dot" and False:
+                        continue
+                    for srcs in later:
+                        if d is None and not srcs:
+                            continue
+                        full = ([["default", "E", d]] if d is not None else []) + srcs
+                        yield {**case(t, full), "pre": pre_of(how, e)}
+
+
+# -------------------------------------------------------------------------------------------------
+# K: classes that become available LATE.  An earlier parse (same parser object / another parser of the same
+#    declared type) names a class of the declared type by its bare name or by its path; then the module
+#    mc.fixtures.c14.late is imported; then a class of that module is named - by path and by bare name - with the
+#    usual init-args mutations.  The model's name rule speaks about the modules imported at the time of the parse.
+
+LATE = {
+    "Base": (["LateSub", "LateSubSub", "LateMidImpl"], "SubAdd"),
+    "OptBase": (["LateSub"], "SubAdd"),
+    "UnionBO": (["LateSubSub"], "SubAdd"),
+    "Abs": (["LateAbsImpl"], "AbsImpl"),
+}
+
+
+def gen_late(quick):
+    for t, (toks, early) in LATE.items():
+        for tok in toks:
+            for on in ("same", "other"):
+                for pre_by in ("name", "path"):
+                    for how in ("json", "dot") if quick else ("json", "dot", "obj", "env"):
+                        pre = pre_of(how, spec_of(early, pre_by), on)
+                        for by in ("name", "path"):
+                            for label, args, dk in trimmed(arg_variants(tok)):
+                                if label not in ("base", "valid", "unknown") + (() if quick else ("ill", "allvalid")):
+                                    continue
+                                forms = [("dot", "S"), ("obj", "E")] + ([("json", "S")] if not args else []) + ([] if quick else [("cfg", "E"), ("json", "E"), ("dot", "E")])
+                                if by == "path" and quick:
+                                    forms = forms[:1]
+                                for ch, form in forms:
+                                    yield {**case(t, [[ch, form, spec_of(tok, by, args, dk)]]), "pre": pre, "late": True}
+    # as the class of a nested parameter, of a container element, through add_subclass_arguments; after a class change
+    for on in ("same", "other"):
+        for by in ("name", "path"):
+            late = spec_of("LateSub", by, {"la": 2})
+            pre_h = pre_of("json", spec_of("HoldOne", "path", {"inner": spec_of("SubAdd", "name")}), on)
+            for ch, form in (("obj", "E"), ("dot", "S"), ("dot", "F")):
+                yield {**case("HoldOne", [[ch, form, spec_of("HoldOne" if form != "F" else None, "path", {"inner": late})]]), "pre": pre_h, "late": True}
+            pre_l = pre_of("json", {"list": [spec_of("SubAdd", "name")]}, on)
+            pre_l["form"] = "E"
+            yield {**case("ListBase", [["json", "E", {"list": [spec_of("Base"), late]}]]), "pre": pre_l, "late": True}
+            yield {**case("ListBase", [["dot", "S", {"append": late}]]), "pre": pre_l, "late": True}
+            pre_d = {**pre_l, "spec": {"dict": {"k": spec_of("SubAdd", "name")}}}
+            yield {**case("DictBase", [["dot", "E", {"key": ["k", late]}]]), "pre": pre_d, "late": True}
+            pre_s = pre_of("dot", spec_of("SubAdd", "name"), on)
+            for ch, form in (("dot", "S"), ("json", "E")):
+                yield {**case("Base", [[ch, form, late]], "sub"), "pre": pre_s, "late": True}
+                yield {**case("Base", [["cfg", "E", spec_of("SubAdd", "path", {"a": 3, "b": True})], [ch, form, late]]), "pre": pre_s, "late": True}
+
+
+# -------------------------------------------------------------------------------------------------
+# L: container elements that carry dict_kwargs (List[Kw] / Dict[str, Kw]) and are addressed again by a later source:
+#    --x.<param>=v / --x.dict_kwargs.<k>=v on the last element, --x.<key>=<json>, the whole container given again with
+#    the element class-less / the same class named (with and without dict_kwargs of its own).
+
+EK_ELEMS = [spec_of("KwSub", "path", {}, {"q": 2}), spec_of("KwSub", "path", {"a": 4}, {"q": 2}), spec_of("Kw", "path", {"a": 3})]
+EK_AGAIN = [spec_of(None, "path", {"e": 3}), spec_of(None, "path", {}, {"w": 8}), spec_of("KwSub"), spec_of("KwSub", "path", {"e": 3}, {"w": 8})]
+
+
+def gen_elem_kwargs(quick):
+    e1, e2, e0 = EK_ELEMS
+    for first in ([e1], [e2], [e0, e1], [e1, e0]):
+        firsts = [["cfg", "E", {"list": first}], ["json", "E", {"list": first}], ["default", "E", {"list": first}]]
+        if len(first) == 1:
+            firsts += [["dot", "E", {"append": first[0]}], ["dot", "S", {"append": first[0]}]]
+        for src1 in firsts:
+            yield case("ListKw", [src1])
+            for again in EK_AGAIN:
+                if again.get("c") is None:
+                    for f in ("F", "I"):
+                        if f == "F" and again.get("k"):
+                            continue
+                        yield case("ListKw", [src1, ["dot", f, {"last": again}]])
+                if again.get("c") is None and not again.get("a"):
+                    continue  # a class-less JSON element needs init_args
+                for ch in ("cfg", "json"):
+                    yield case("ListKw", [src1, [ch, "E", {"list": first[:-1] + [again]}]])
+    for first in ({"k": e1}, {"k": e2}, {"k": e0, "m": e1}, {"k": e1, "k2": e0}):
+        firsts = [["cfg", "E", {"dict": first}], ["json", "E", {"dict": first}]]
+        if len(first) == 1:
+            firsts += [["dot", "E", {"key": ["k", first["k"]]}]]
+        last_key = list(first)[-1]
+        for src1 in firsts:
+            yield case("DictKw", [src1])
+            for again in EK_AGAIN:
+                for key in first:
+                    for f in ("E",) if again.get("c") else (("I",) if again.get("k") else ("I", "F")):
+                        yield case("DictKw", [src1, ["dot", f, {"key": [key, again]}]])
+                if again.get("c") is None and not again.get("a"):
+                    continue
+                for ch in ("cfg", "json"):
+                    yield case("DictKw", [src1, [ch, "E", {"dict": {**first, last_key: again}}]])
+
 
 FAMILIES = [
     ("single", gen_single),
@@ -632,4 +781,7 @@ FAMILIES = [
     ("kwargs", gen_kwargs),
     ("siblings", gen_siblings),
     ("recontainer", gen_recontainer),
+    ("reuse", gen_reuse),
+    ("late", gen_late),
+    ("elem_kwargs", gen_elem_kwargs),
 ]
